@@ -62,7 +62,7 @@ H("c02_fuse_dense", "c02_fuse::c02_fuse_dense", ["C02"],
   assumptions=["the dense/readable writers call the break_* predicate named in each claim before the token it guards (call sites read, not executed)"])
 
 # ---------------------------------------------------------------------------------------- scalar kernels
-H("c14_valid_identifier_8", "c_scalar::c14_valid_identifier_8", ["C14", "C01", "C09"], ["process::utils::is_valid_identifier"],
+H("c14_valid_identifier_8", "c_scalar::c14_valid_identifier_8", ["C14", "C09"], ["process::utils::is_valid_identifier"],
   "every ASCII string of length 0..=8 (covers all 21 reserved words, `function` being the longest)", mode="lean", timeout_s=1200, mem_gb=16,
   replay="valid_identifier_8", assumptions=["non-ASCII strings: see c14_valid_identifier_unicode"])
 H("c14_valid_identifier_unicode", "c_scalar::c14_valid_identifier_unicode", ["C14", "C01", "C09"], ["process::utils::is_valid_identifier"],
